@@ -4,6 +4,7 @@
 From Coq Require Import List Arith Lia Bool PeanoNat Permutation Sorted.
 Import ListNotations.
 From SP Require Import Report.
+From SP Require Result TaskFS TInv Glue Cor TaskTop Bash.
 
 (* flattening lists exactly the IDs that occur anywhere in the tree -- whatever the depth, the fan-in, or the sharing of
    ancestors reached through several paths -- each exactly once *)
@@ -30,6 +31,46 @@ Theorem C20_ties_refuted_before_repair :
   let a := Rec 1 5 100 [] in let b := Rec 2 5 200 [] in listing [a; b] = [Some b; Some b].
 Proof. exact Report.C20_ties_refuted. Qed.
 
+(* the generated Bash script: one guarded command per listed task, in report order ("if an output exists: skip; else run").
+   For every task list (any DAG, in an order in which no task reads what it or a later task writes -- the order of start
+   times, since a task starts after its inputs were finalized), every selection of tasks that is closed under "is an input
+   of" (the lineage of a file: Upstream holds the record of every input, recursively), run in a directory that holds only
+   the source files: the script succeeds and every output of a listed task gets the content of the complete run *)
+Theorem C20_bash_reproduces : forall (all : list Result.task) (keep : list bool), List.length keep = List.length all ->
+  forall (f0 fR : Result.fs), Bash.closed all keep -> Result.wf all ->
+  (forall t, In t all -> forall x, In x (Result.tout t) -> f0 x = None) ->
+  Result.result all f0 = Some fR ->
+  exists fS, Result.result (Bash.sub all keep) f0 = Some fS /\ forall x, Bash.kept_out all keep x -> fS x = fR x.
+Proof. exact Bash.script_reproduces. Qed.
+
+(* ... and the complete run it is compared with is any concurrent execution of the workflow (every schedule of the task /
+   file-store machine): what the script writes is what the workflow left on disk *)
+Theorem C20_bash_reproduces_run : forall (c : TaskFS.cfg) (f0 : Result.fs) (left0 : nat -> bool), TInv.wfc c ->
+  forall fR, Glue.pre c f0 (TaskFS.nt c) = Some fR ->
+  (forall t, In t (Glue.tl c (TaskFS.nt c)) -> forall x, In x (Result.tout t) -> f0 x = None) ->
+  forall s, Cor.reachable c f0 left0 s -> (forall t, t < TaskFS.nt c -> TaskFS.is_done (TaskFS.pcs s t) = true) ->
+  forall keep, List.length keep = List.length (Glue.tl c (TaskFS.nt c)) -> Bash.closed (Glue.tl c (TaskFS.nt c)) keep ->
+  exists fS, Result.result (Bash.sub (Glue.tl c (TaskFS.nt c)) keep) f0 = Some fS /\
+             forall t x, t < TaskFS.nt c -> nth t keep false = true -> In x (Result.tout (TaskFS.tk c t)) -> fS x = TaskFS.fin s x.
+Proof.
+  intros c f0 left0 WF fR HR CLEAN s R HD keep LEN CL.
+  destruct (Bash.script_reproduces (Glue.tl c (TaskFS.nt c)) keep LEN f0 fR CL (TaskTop.wfc_wf c WF) CLEAN HR) as [fS [RS A]].
+  exists fS. split; [exact RS|]. intros t x Ht Hk Hx.
+  rewrite (TaskTop.complete_is_result c f0 left0 WF fR HR s R HD t x Ht Hx).
+  apply A. exists t, (TaskFS.tk c t). split; [|split; assumption].
+  unfold Glue.tl. rewrite nth_error_map. rewrite nth_error_nth' with (d := 0) by (rewrite seq_length; exact Ht).
+  rewrite seq_nth by exact Ht. reflexivity.
+Qed.
+
+Theorem C20_bash_example :
+  let f0 : Result.fs := fun x => if Nat.eqb x 0 then Some 5 else None in
+  match Result.result [Bash.tA; Bash.tB; Bash.tE; Bash.tC; Bash.tD] f0,
+        Result.result (Bash.sub [Bash.tA; Bash.tB; Bash.tE; Bash.tC; Bash.tD] [true; true; false; true; true]) f0 with
+  | Some fR, Some fS => fR 4 = Some 30 /\ fS 4 = Some 30 /\ fS 9 = None /\ fR 9 = Some 105
+  | _, _ => False
+  end.
+Proof. exact Bash.script_example. Qed.
+
 (* example: a diamond lineage with a shared ancestor (id 1) reached through two paths, and two source records with start time 0 *)
 Definition ex_tree : rec :=
   Rec 9 30 0 [Rec 5 20 0 [Rec 1 10 0 [Rec 3 0 0 []; Rec 2 0 0 []]]; Rec 6 20 0 [Rec 1 10 0 [Rec 3 0 0 []; Rec 2 0 0 []]]].
@@ -42,4 +83,7 @@ Print Assumptions C20_report_complete.
 Print Assumptions C20_report_once.
 Print Assumptions C20_report_sorted.
 Print Assumptions C20_ties_refuted_before_repair.
+Print Assumptions C20_bash_reproduces.
+Print Assumptions C20_bash_reproduces_run.
+Print Assumptions C20_bash_example.
 Print Assumptions C20_example.
